@@ -233,6 +233,9 @@ type ForRange struct {
 	Lo, Hi Expr
 	Incl   bool
 	Body   []Stmt
+	// Step: `lo..hi:step` (nil = 1). A negative step counts down (while i > hi, or >= for ..=),
+	// a zero step does not iterate.
+	Step Expr
 }
 type ForIn struct {
 	Idx, Val string // "_" allowed
